@@ -14,6 +14,7 @@ from typing import Any, Dict, List, Optional, Sequence
 import numpy
 
 from .. import prelude, core, model, seams
+from ..runner import NUMPOLY_DIR
 
 ID = "C18"
 LEVEL = "exploration"
@@ -86,6 +87,8 @@ def _gen_index_case(ch: core.Chooser) -> dict:
         case["bound_dtype"] = ch.choice(["uint8", "uint32", "int64", "int32", "uint64"])
     if ch.chance(0.2):  # process-global floating-point error state: index generation never needs to divide by zero
         case["errstate"] = "raise"
+    if ch.chance(0.2):
+        case["abort_first"] = ch.below(100000)
     return case
 
 
@@ -352,6 +355,23 @@ class Runner:
                     self.bump("probe:returned_array_mutated_before_recall")
             except Exception:  # noqa: BLE001
                 pass
+        if step.get("abort_first") is not None:
+            # history: a neighbouring request succeeds, then this very request is aborted part-way (an interrupt
+            # between two lines of numpoly code), then it is made again
+            try:
+                kw2 = dict(kwargs, stop=(numpy.asarray(kwargs["stop"]) + 1))
+                (numpoly.bindex(ordering=step["ordering"], **kw2) if kind == "bindex" else
+                 numpoly.glexindex(graded=graded, reverse=reverse, **kw2) if kind == "glexindex" else
+                 numpoly.monomial(graded=graded, reverse=reverse, **dict(kw2, dimensions=kw["dimensions"] if kind == "monomial" else kw2["dimensions"])))
+            except Exception:  # noqa: BLE001
+                pass
+            tracer = seams.LineTracer(NUMPOLY_DIR, k=1 + step["abort_first"] % 150)
+            try:
+                tracer.run(func)
+            except core.SimInterrupt:
+                self.bump("fault:interrupted_then_retried.fired")
+            except Exception:  # noqa: BLE001
+                pass
         if step.get("errstate") == "raise":
             inner = func
 
@@ -481,7 +501,7 @@ def simplify(plan: dict):
                             nk[r][j] = v - 1
                             yield dict(plan, steps=[dict(step, keys=nk)])
         elif step["k"] in ("glexindex", "bindex", "monomial"):
-            for key in ("bound_dtype", "errstate", "mutate_first"):
+            for key in ("bound_dtype", "errstate", "mutate_first", "abort_first"):
                 if step.get(key):
                     yield dict(plan, steps=[{k: v for k, v in step.items() if k != key}])
             if step["dimensions"] > 1 and not isinstance(step["stop"], list) and not isinstance(step["start"], list):
